@@ -175,6 +175,18 @@ def call_math(E, name, args, st, node):
 
 def _bi_len(E, args, kwargs, st, node):
     v = args[0]
+    from .values import ImgSetV
+    if isinstance(v, ImgSetV):
+        # cardinality of {f(i) : 0 <= i < len}: a fresh integer with the facts the code can use
+        n = z3.Int(fresh_name("card"))
+        L = to_int_term(v.seq.length)
+        i, j = z3.Int(fresh_name("ci")), z3.Int(fresh_name("cj"))
+        fi, fj = v.fn(i), v.fn(j)
+        rng = z3.And(i >= 0, i < L, j >= 0, j < L)
+        same = z3.ForAll([i, j], z3.Implies(rng, ops._tb(equal(fi, fj))))
+        inj = z3.ForAll([i, j], z3.Implies(z3.And(rng, i != j), ops._tb(b_not(equal(fi, fj)))))
+        facts = [n >= 0, n <= L, (n == 0) == (L == 0), (n == 1) == z3.And(L >= 1, same), (n == L) == inj]
+        return [(st.assume(*facts), n)]
     if isinstance(v, ConstDictT()):
         return [(st, len(v.entries))]
     if isinstance(v, LitSet) and v.conds is not None:
